@@ -1,7 +1,7 @@
 /-
   C14 — field resolution never returns a value that contradicts a supplied field.
   Property statements only.  Model: Model/ParsedCore.lean (record, setters) and
-  Model/ParsedResolve.lean (resolution).  Specification: Spec/ParsedSpec.lean — `DateAgrees`,
+  Model/ParsedResolve.lean (resolution).  Specification: Spec/ParsedSpec.lean (namespace `Chrono.Spec.Fields`) — `DateAgrees`,
   `TimeAgrees`, `timestampIs` (what "agrees with every supplied field" means, read off the calendar
   specification of C01), `DateSufficient` / `TimeSufficient` (the documented combinations),
   `GroupCoherent` / `GroupDeterminate` (year groups).  Helper lemmas: Proofs/ParsedL.lean,
@@ -15,7 +15,9 @@
 import Chrono.Proofs.ParsedDtL
 
 namespace Chrono.Props.C14
-open Chrono Chrono.M Chrono.Spec Chrono.Proofs Chrono.Extracted
+open Chrono Chrono.M Chrono.Spec Chrono.Spec.Fields Chrono.Proofs Chrono.Proofs.ParsedRes Chrono.Extracted
+
+attribute [local instance] exceptDecEq
 
 /-! ### setting a field twice -/
 
@@ -152,6 +154,31 @@ theorem date_result_valid (p : Parsed) (hp : InType p) (d : Date)
   obtain ⟨Y, o, hvd, hd, _⟩ := hok d rfl
   exact ⟨Y, o, hvd, hd⟩
 
+/-- completeness for dates: fields that all agree with one real day `(Y, o)` of the supported
+range, with each year group determinate (full year, or century + two-digit year, or the two-digit
+year alone with the real year in 1970–2069; the ISO group likewise w.r.t. the day's ISO year) and a
+calendar combination present (year with month+day, ordinal, or Sunday/Monday week number with
+weekday) resolve to exactly that day — whichever combination the resolver happens to pick first.
+Not covered by this theorem (compared with the implementation and checked by the harness oracle
+only): sets whose only sufficient combination is the ISO one (needs the inverse direction of C01's
+ISO-week round trip, `from_isoywd_opt (iso fields of d) = d`). -/
+theorem date_complete (p : Parsed) (hp : InType p) (Y : Int) (o : Nat) (hvd : VD Y o)
+    (hag : DateAgrees p Y o)
+    (hdY : GroupDeterminate p.year p.year_div_100 p.year_mod_100 Y)
+    (hdI : ∀ w, (dateOfYo Y o).iso_week = .ok w →
+      GroupDeterminate p.isoyear p.isoyear_div_100 p.isoyear_mod_100 (IsoWeek.year w))
+    (hc : UsesCalendar p) :
+    Parsed.to_naive_date p = .ok (.ok (dateOfYo Y o)) := date_complete' p hp Y o hvd hag hdY hdI hc
+
+/-- non-vacuity of the hypotheses of `date_complete`: a two-digit year alone (pivot), a week number
+and a weekday describe 1999-12-31 (day 365, a Friday in Sunday-week 52) -/
+example : VD 1999 365 ∧ UsesCalendar { year_mod_100 := some 99, week_from_sun := some 52, weekday := some .fri } ∧
+    GroupDeterminate none none (some 99) 1999 ∧ weekNo 1999 365 6 = 52 ∧ weekdayOf (dayNumYo 1999 365) = 4 ∧
+    Parsed.to_naive_date { year_mod_100 := some 99, week_from_sun := some 52, weekday := some .fri }
+      = .ok (.ok (dateOfYo 1999 365)) := by
+  refine ⟨by unfold VD; decide, ⟨Or.inr (by simp), Or.inr (Or.inr (Or.inl ⟨by simp, by simp⟩))⟩,
+    ⟨by simp [GroupUsable], fun _ _ _ => by omega⟩, by decide, by decide, by decide +kernel⟩
+
 /-- error kinds of the date resolver: only NOT_ENOUGH, IMPOSSIBLE, OUT_OF_RANGE occur; NOT_ENOUGH
 only for sets that contain none of the documented combinations (or a century without two-digit
 year); and when the two year groups are coherent (no contradicting or out-of-range member),
@@ -248,6 +275,26 @@ theorem datetime_sound_fields (p : Parsed) (hp : InType p) (off : Int)
         have : ¬ ¬ (t.frac ≥ 1000000000 ∧ g = timestampIs.instSecsLocal ⟨dateOfYo Y o, t⟩ - off + 1) :=
           fun hn => hc ⟨h1, hn⟩
         exact Decidable.not_not.mp this
+
+/-- completeness for date-times on the field path: date fields as in `date_complete`, time fields
+agreeing with a real time of day and sufficient, and a timestamp field (if supplied) that is the
+timestamp of that local reading at the given offset (or one more for a leap second) ⇒ exactly that
+date-time.  Not covered by a theorem (compared with the implementation and checked by the harness
+oracles only): the fall-back path that reconstructs year, ordinal, hour, minute and second from the
+timestamp when the other fields are insufficient — it needs C02's `from_timestamp` theorems. -/
+theorem datetime_complete_fields (p : Parsed) (hp : InType p) (off : Int)
+    (hoff : -2147483648 ≤ off ∧ off ≤ 2147483647) (Y : Int) (o : Nat) (t : Time) (hvd : VD Y o)
+    (hag : DateAgrees p Y o)
+    (hdY : GroupDeterminate p.year p.year_div_100 p.year_mod_100 Y)
+    (hdI : ∀ w, (dateOfYo Y o).iso_week = .ok w →
+      GroupDeterminate p.isoyear p.isoyear_div_100 p.isoyear_mod_100 (IsoWeek.year w))
+    (hc : UsesCalendar p) (ht : TStrict t) (hta : TimeAgrees p t) (hts : TimeSufficient p)
+    (hstamp : timestampIs p.timestamp ⟨dateOfYo Y o, t⟩ off) :
+    Parsed.to_naive_datetime_with_offset p off = .ok (.ok ⟨dateOfYo Y o, t⟩) := by
+  have hd := date_complete' p hp Y o hvd hag hdY hdI hc
+  have htt := time_complete' p t ht hta hts
+  obtain ⟨r, hr, _, _, hfin⟩ := datetime_sound_fields p hp off hoff _ t hd htt
+  rw [hr, hfin hstamp]
 
 /-- non-vacuity: the leap second 2016-12-31T23:59:60 with either of the two admissible timestamps,
 and a contradicting one -/
